@@ -24,7 +24,7 @@ SPEC = dict(
          'the step: out=outmax, out=outmin, sum>=summax, sum<=summin) combinations in which at least one step was judged - NOT the number of '
          'steps (evaluations).',
     exhaustive={'quick': None, 'thorough': None},
-    require=['out-within-limits', 'state-finite', 'return-eq-out-field', 'limits-untouched', 'gains-untouched', 'cached-fields-bitwise',
+    require=['neuro-all-weights-zero-histories', 'out-within-limits', 'state-finite', 'return-eq-out-field', 'limits-untouched', 'gains-untouched', 'cached-fields-bitwise',
              'sum-untouched-by-run-inc', 'integrator-not-further-beyond-clamp', 'integrator-overshoot-le-one-increment',
              'integrator-step-eq-one-increment', 'equation-exact-sum', 'equation-exact-out', 'equation-onestep-sum', 'equation-onestep-out',
              'pos-eq-inc-while-no-limit-active', 'closed-form-while-no-limit-active', 'seen-first-limit-activation-in-pos-inc-pair',
